@@ -247,7 +247,7 @@ func buildTruth(sub string) *truth {
 	if !isPIE {
 		// link address == run-time address: the pclntab names can be joined with the runtime table
 		pt := readPclntab(f)
-		if sub == "cgo" {
+		if sub == "cgo" || sub == "cgostrip" {
 			// externally linked: the text start recorded in the pclntab header differs from runtime.text
 			// by a constant; measure it on a known function and shift the whole table
 			known := c10vars.Funcs()[0]
